@@ -48,6 +48,66 @@ theorem isPrimeB_sound {p : Nat} (h : isPrimeB p = true) : IsPrime p := by
   · have : e * e ≤ p := by rw [he]; exact Nat.mul_le_mul_right e (by omega)
     exact hnd' e (by omega) this ⟨d, by rw [he, Nat.mul_comm]⟩
 
+/-! ### fast primality certificate: `gcd p n! = 1` and `p < (n+1)²` (kernel `Nat.gcd` is GMP-accelerated) -/
+
+def fact : Nat → Nat
+  | 0 => 1
+  | n + 1 => (n + 1) * fact n
+
+theorem dvd_fact : ∀ (n k : Nat), 1 ≤ k → k ≤ n → k ∣ fact n := by
+  intro n
+  induction n with
+  | zero => intro k h1 h2; omega
+  | succ n ih =>
+    intro k h1 h2
+    by_cases h : k = n + 1
+    · subst h; exact ⟨fact n, rfl⟩
+    · exact Nat.dvd_trans (ih k h1 (by omega)) ⟨n + 1, by simp [fact, Nat.mul_comm]⟩
+
+/-- `p` has no factor in `2..n` and is below `(n+1)²`, or is small and passes trial division. -/
+def primeCertB (n F : Nat) (p : Nat) : Bool :=
+  if p ≤ n then isPrimeB p
+  else decide (p < (n + 1) * (n + 1)) && (Nat.gcd p F == 1)
+
+theorem primeCertB_sound {n p : Nat} (h : primeCertB n (fact n) p = true) : IsPrime p := by
+  unfold primeCertB at h
+  by_cases hpn : p ≤ n
+  · simp only [hpn, if_true] at h; exact isPrimeB_sound h
+  · simp only [hpn, if_false, Bool.and_eq_true, decide_eq_true_eq, beq_iff_eq] at h
+    obtain ⟨hlt, hg⟩ := h
+    have hp1 : p ≠ 1 := by
+      rintro rfl
+      have : n = 0 := by omega
+      subst this
+      simp at hlt
+    refine ⟨by omega, ?_⟩
+    intro d hd
+    obtain ⟨e, he⟩ := hd
+    by_cases hd1 : d = 1
+    · exact Or.inl hd1
+    by_cases hdp : d = p
+    · exact Or.inr hdp
+    exfalso
+    have hd0 : d ≠ 0 := by rintro rfl; simp at he; omega
+    have he0 : e ≠ 0 := by rintro rfl; simp at he; omega
+    have he1 : e ≠ 1 := by rintro rfl; simp at he; omega
+    -- a factor k with 2 ≤ k ≤ n divides both p and n!
+    have key : ∀ k, 2 ≤ k → k ∣ p → k * k ≤ p → False := by
+      intro k hk2 hkp hkk
+      have hkn : k ≤ n := by
+        by_cases hc : k ≤ n
+        · exact hc
+        · exfalso
+          have : (n + 1) * (n + 1) ≤ k * k := Nat.mul_le_mul (by omega) (by omega)
+          omega
+      have h1 : k ∣ Nat.gcd p (fact n) := Nat.dvd_gcd hkp (dvd_fact n k (by omega) hkn)
+      rw [hg] at h1
+      have := Nat.le_of_dvd (by omega) h1
+      omega
+    by_cases hle : d ≤ e
+    · exact key d (by omega) ⟨e, he⟩ (by rw [he]; exact Nat.mul_le_mul_left d hle)
+    · exact key e (by omega) ⟨d, by rw [he, Nat.mul_comm]⟩ (by rw [he]; exact Nat.mul_le_mul_right e (by omega))
+
 /-! ### sort.Search -/
 
 theorem sortSearch_spec (f : Nat → Bool) (n : Nat)
